@@ -133,6 +133,20 @@ def blob_status(data, want_dump):
     return st
 
 
+def safe_to_load(b):
+    """A flipped byte can turn an opcode into LONG_BINPUT/PUT with a gigantic memo index: CPython's unpickler
+    then allocates and clears gigabytes (observed: 26 GB, minutes).  Such damage is skipped (resource problem,
+    not a property-level one); pickletools only decodes, it does not execute."""
+    import pickletools
+    try:
+        for op, arg, _pos in pickletools.genops(b):
+            if op.name in ("LONG_BINPUT", "PUT", "LONG_BINGET", "GET") and isinstance(arg, int) and arg > 100000:
+                return False
+    except Exception:  # noqa - not decodable from some opcode on: loads() fails there at the latest
+        return True
+    return True
+
+
 def corrupt(kind, good, pos):
     """damaged value for an entry; returns (value, applies)"""
     if kind == "not_pickle":
@@ -163,6 +177,8 @@ def corrupt(kind, good, pos):
             b = bytearray(good)
             b[p] ^= 0x5A
             b = bytes(b)
+            if not safe_to_load(b):
+                continue
             try:
                 pickle.loads(b)
             except Exception:  # noqa
